@@ -175,6 +175,8 @@ def make_exec(ir, opts, tier):
         eo['intmode'] = True
     if opts.get('expect_panic') == '1':
         eo['expect_panic'] = True
+    if opts.get('affine') == '1':
+        eo['affine'] = True
     if 'override' in opts:
         ov = {}
         for pair in opts['override'].split(';'):
